@@ -6,7 +6,6 @@ package server
 import (
 	"bytes"
 	"context"
-	"encoding/json"
 	"fmt"
 	"net/http"
 	"net/http/httptest"
@@ -14,6 +13,7 @@ import (
 	"os"
 	"os/exec"
 	"path/filepath"
+	"sort"
 	"strconv"
 	"strings"
 	"testing"
@@ -887,7 +887,7 @@ func c3RunCase(t *testing.T, out *zzverif.Out, c *c3Case) {
 	reportedCorrupt := map[string]bool{} // layers already reported as installed corrupt by an earlier attempt of this history
 	blobOrigin := map[string]string{} // how a blob that was not in the initial store got its final name
 	var obs []string
-	lastClass := ""
+	lastClass, lastErrText := "", ""
 	out.Count("cases")
 	out.Count("tag_" + strings.SplitN(c.tag, "-res", 2)[0])
 	if initialGood {
@@ -914,7 +914,7 @@ func c3RunCase(t *testing.T, out *zzverif.Out, c *c3Case) {
 		obs = append(obs, fmt.Sprintf("%s req=%s %s", res.class, res.counts, after.show()))
 		out.Count("attempts")
 		out.Count("outcome_" + strings.SplitN(res.class, ":other", 2)[0])
-		lastClass = res.class
+		lastClass, lastErrText = res.class, res.errText
 		where := fmt.Sprintf("attempt=%d", ai+1)
 
 		// ---- L2: no registry response crashes the server
@@ -958,20 +958,41 @@ func c3RunCase(t *testing.T, out *zzverif.Out, c *c3Case) {
 					}
 					if origin != "preexisting" || initialGood {
 						out.L2("success-corrupt-layer", line, "layer="+l.ref[:12]+" origin="+origin+" "+where)
+					} else {
+						// the case STARTED with a blob that does not hash to its name (not written by any pull): PullModel
+						// takes a file on disk as a cache hit and never re-verifies it.  Outside the property's quantifier
+						// (listed assumption "the initial store satisfies BlobInv"); counted so that it is visible.
+						out.Count("success_with_corrupt_blob_of_a_bad_initial_store")
 					}
 					reportedCorrupt[l.ref] = true
 					reported = true
 				case int64(len(b)) != l.size:
-					out.L2("success-size-mismatch", line, fmt.Sprintf("layer=%s manifest-size-lie declared=%d actual=%d %s", l.ref[:12], l.size, len(b), where))
+					// who lied: the served manifest declares a size that is not the length of the registry's blob
+					// (scripted-size-lie=true: finding C03-size), or the size got wrong on the way (false: something new)
+					scripted := false
+					for _, rb := range c.content {
+						if rb.dig == l.ref && int64(len(rb.content)) != l.size {
+							scripted = true
+						}
+					}
+					stored := int64(-1)
+					if sm := after.mans[c.name]; sm != nil {
+						for _, sl := range append(append([]Layer{}, sm.Layers...), sm.Config) {
+							if c3RefOf(sl.Digest) == l.ref {
+								stored = sl.Size
+							}
+						}
+					}
+					out.L2("success-size-mismatch", line, fmt.Sprintf("layer=%s scripted-size-lie=%v served-size=%d stored-manifest-size=%d actual=%d %s", l.ref[:12], scripted && stored == l.size, l.size, stored, len(b), where))
 				}
 			}
 			m := after.mans[c.name]
 			if m == nil {
 				out.L2("success-manifest-differs", line, "stored manifest missing or unreadable "+where)
-			} else if got, _ := json.Marshal(m); !bytes.Equal(got, c3StoredManifestJSON(c, a)) {
+			} else if got := after.rawMans[c.name]; !bytes.Equal(got, c3StoredManifestJSON(c, a)) {
 				detail := "stored=" + string(got)
 				if om := before.mans[c.name]; om != nil {
-					if ob, _ := json.Marshal(om); bytes.Equal(ob, got) {
+					if ob := before.rawMans[c.name]; bytes.Equal(ob, got) {
 						detail = "the manifest stored before this attempt is still there, the registry served another one: " + detail
 					}
 				}
@@ -1034,7 +1055,24 @@ func c3RunCase(t *testing.T, out *zzverif.Out, c *c3Case) {
 	}
 	if honest >= c3HonestNeeded(c) && initialGood && c3RegHonest(c) && lastClass != "ok" && !strings.HasPrefix(lastClass, "panic") {
 		detail := "last=" + c3Sanitize(lastClass)
-		for k, ps := range before.parts {
+		// the layer the last attempt stopped at: PullModel fetches the layers in manifest order and returns at the first
+		// failure, so it is the first layer of the served manifest that is still not stored
+		stuck := "none"
+		for _, l := range c.regOf(&c.attempts[len(c.attempts)-1]).all() {
+			if _, ok := before.blobs[l.ref]; !ok && len(l.ref) == 64 {
+				stuck = l.ref[:12]
+				break
+			}
+		}
+		_ = lastErrText
+		detail += " stuck-layer=" + stuck
+		var pks []string
+		for k := range before.parts {
+			pks = append(pks, k)
+		}
+		sort.Strings(pks)
+		for _, k := range pks {
+			ps := before.parts[k]
 			var total int64
 			for _, p := range ps {
 				total += p.Size
@@ -1045,7 +1083,7 @@ func c3RunCase(t *testing.T, out *zzverif.Out, c *c3Case) {
 					if total > int64(len(b.content)) {
 						cmp = ">"
 					}
-					detail += fmt.Sprintf(" part-plan-total %d %s true-size %d", total, cmp, len(b.content))
+					detail += fmt.Sprintf(" part-plan-total[%s] %d %s true-size %d", k[:12], total, cmp, len(b.content))
 				}
 			}
 		}
